@@ -15,6 +15,7 @@
 """Utilities for serializing and deserializing state objects to and from JSON."""
 import functools
 import json
+import re
 from collections import deque
 from dataclasses import is_dataclass
 from datetime import datetime
@@ -24,6 +25,10 @@ from typing import Any, Dict
 
 from nemoguardrails.colang.v2_x.lang import colang_ast as colang_ast_module
 from nemoguardrails.colang.v2_x.runtime import flows as flows_module
+from nemoguardrails.colang.v2_x.runtime.eval import (
+    COMPARISON_OPERATORS,
+    ComparisonExpression,
+)
 from nemoguardrails.colang.v2_x.runtime.flows import Action, State
 from nemoguardrails.colang.v2_x.runtime.statemachine import _flow_head_changed
 from nemoguardrails.rails.llm.config import RailsConfig
@@ -81,10 +86,20 @@ def encode_to_dict(obj: Any, refs: Dict[int, Any]):
     else:
         # Otherwise, we need custom encoding with support for references
         if isinstance(obj, dict):
-            value = {
-                "__type": "dict",
-                "value": {k: encode_to_dict(v, refs) for k, v in obj.items()},
-            }
+            if all(isinstance(k, str) for k in obj.keys()):
+                value = {
+                    "__type": "dict",
+                    "value": {k: encode_to_dict(v, refs) for k, v in obj.items()},
+                }
+            else:
+                # JSON only supports string keys, so we encode the items as pairs
+                value = {
+                    "__type": "dict",
+                    "items": [
+                        [encode_to_dict(k, refs), encode_to_dict(v, refs)]
+                        for k, v in obj.items()
+                    ],
+                }
         elif is_dataclass(obj):
             value = {
                 "__type": type(obj).__name__,
@@ -106,6 +121,10 @@ def encode_to_dict(obj: Any, refs: Dict[int, Any]):
             value = {"__type": "Action", "value": obj.to_dict()}
         elif isinstance(obj, datetime):
             value = {"__type": "datetime", "value": obj.isoformat()}
+        elif isinstance(obj, re.Pattern):
+            value = {"__type": "regex", "pattern": obj.pattern, "flags": obj.flags}
+        elif isinstance(obj, ComparisonExpression) and obj.name in COMPARISON_OPERATORS:
+            value = {"__type": "comparison", "name": obj.name, "value": obj.value}
         elif isinstance(obj, Enum):
             value = {"__type": "enum", "__class": type(obj).__name__, "value": obj.name}
         elif isinstance(obj, deque):
@@ -181,7 +200,21 @@ def decode_from_dict(d: Any, refs: Dict[int, Any]):
                 value = tuple(decode_from_dict(d["value"], refs))
 
             elif d_type == "dict":
-                value = {k: decode_from_dict(v, refs) for k, v in d["value"].items()}
+                if "items" in d:
+                    value = {
+                        decode_from_dict(k, refs): decode_from_dict(v, refs)
+                        for k, v in d["items"]
+                    }
+                else:
+                    value = {
+                        k: decode_from_dict(v, refs) for k, v in d["value"].items()
+                    }
+
+            elif d_type == "regex":
+                value = re.compile(d["pattern"], d["flags"])
+
+            elif d_type == "comparison":
+                value = COMPARISON_OPERATORS[d["name"]](d["value"])
 
             elif d_type == "set":
                 value = set(decode_from_dict(d["value"], refs))
